@@ -314,7 +314,7 @@ func (r *wkbReader) coordList(bo binary.ByteOrder, stride int) ([][]float64, err
 }
 
 func (r *wkbReader) geom(depth int) (*model.G, error) {
-	if depth > 200 {
+	if depth > 1000000 {
 		return nil, errors.New("ref: nesting too deep")
 	}
 	if err := r.need(1); err != nil {
